@@ -172,7 +172,48 @@ Definition sweep (n d : nat) (start cnt : N) : bool * list N :=
                                        let m' := N.pred m in (m', find_basis (mat_of_N n d m') :: acc))
                             ((start + cnt)%N, [])) in
   (forallb (shape_ok n d) rs, map (encode_result n d) rs).
+(* Compact printing.  Coq prints (and parses) number literals at about a millisecond each, plain constructors at a
+   few microseconds, so exhaustive sweeps print every result as hexadecimal digits, 4 bits per constructor, least
+   significant digit first, `res_width n d` bits per result. *)
+Inductive hex := X0 | X1 | X2 | X3 | X4 | X5 | X6 | X7 | X8 | X9 | XA | XB | XC | XD | XE | XF.
+Definition hex_of_bits (a b c d : bool) : hex :=      (* a is the least significant bit *)
+  match a, b, c, d with
+  | false, false, false, false => X0
+  | true, false, false, false => X1
+  | false, true, false, false => X2
+  | true, true, false, false => X3
+  | false, false, true, false => X4
+  | true, false, true, false => X5
+  | false, true, true, false => X6
+  | true, true, true, false => X7
+  | false, false, false, true => X8
+  | true, false, false, true => X9
+  | false, true, false, true => XA
+  | true, true, false, true => XB
+  | false, false, true, true => XC
+  | true, false, true, true => XD
+  | false, true, true, true => XE
+  | true, true, true, true => XF
+  end.
+Fixpoint hex_of_vec (v : vec) : list hex :=
+  match v with
+  | a :: b :: c :: d :: r => hex_of_bits a b c d :: hex_of_vec r
+  | [a; b; c] => [hex_of_bits a b c false]
+  | [a; b] => [hex_of_bits a b false false]
+  | [a] => [hex_of_bits a false false false]
+  | [] => []
+  end.
+Definition res_width (n d : nat) : nat := 3 + Nat.min n d * (n + d).
+Definition sweep_hex (n d : nat) (start cnt : N) : bool * list hex :=
+  let r := sweep n d start cnt in
+  (fst r, flat_map (fun c => hex_of_vec (vec_of_N (res_width n d) c)) (snd r)).
+(* the same for an explicit list of matrix numbers (random samples of a shape) *)
+Definition sample_hex (n d : nat) (ms : list N) : bool * list hex :=
+  let rs := map (fun m => find_basis (mat_of_N n d m)) ms in
+  (forallb (shape_ok n d) rs,
+   flat_map (fun r => hex_of_vec (vec_of_N (res_width n d) (encode_result n d r))) rs).
 (* a matrix given by its rows as numbers *)
 Definition rows_of_N (d : nat) (rows : list N) : list vec := map (vec_of_N d) rows.
-Definition show_result (r : list vec * list vec) : list N * list N * list nat * list nat :=
-  (map N_of_vec (fst r), map N_of_vec (snd r), map (@length bool) (fst r), map (@length bool) (snd r)).
+(* (shapes are n x d -> rank x d, n x rank ;  rows of B ; rows of T), rows as hex digits *)
+Definition show_hex (n d : nat) (r : list vec * list vec) : bool * list (list hex) * list (list hex) :=
+  (shape_ok n d r, map hex_of_vec (fst r), map hex_of_vec (snd r)).
